@@ -124,6 +124,6 @@ _TREE_RULE = ("each run = one seeded session over a population of TTNS/TTNO obje
               "distinct = distinct (operation, sub-kind, object kind, tree shape, bond dimensions, dtype) tuples")
 for _pid in ("C02", "C11", "C12"):
     register(_pid, f"simlab.profiles.{_pid.lower()}", "exploration",
-             budgets={"quick": dict(runs=1600 if _pid == "C12" else 2400, timeout=300), "thorough": dict(runs=40000, timeout=600)},
+             budgets={"quick": dict(runs=800 if _pid == "C12" else 2400, timeout=300), "thorough": dict(runs=40000, timeout=600)},
              rule=_TREE_RULE, assumptions=COMMON_ASSUMPTIONS, seams=_CHAIN_SEAMS + (["ODE budget seam (tn.time_evolution.solve_ivp)"] if _pid == "C12" else []),
              design_ref="4/" + _pid)
